@@ -27,9 +27,9 @@ func init() {
 		},
 		N: func(t string) int {
 			if t == "thorough" {
-				return 600
+				return 3000
 			}
-			return 48
+			return 96
 		},
 		InProcess: true,
 		Workers:   func(string) int { return 32 },
